@@ -269,3 +269,74 @@ twin('C03', 'store-objects-savepoint-test-inverted', CONNPY,
                 pass
             else:
                 self._readCurrent.pop(oid, None)''')
+
+# ---------------------------------------------------------------- C12
+breaker('C12', 'reset-index-alias', 'C12.R1', CONNPY, 'TmpStore.reset',
+        'self.index = index.copy()', 'self.index = index')
+breaker('C12', 'reset-creating-alias', 'C12.R1', CONNPY, 'TmpStore.reset',
+        'self.creating = creating.copy()', 'self.creating = creating')
+breaker('C12', 'savepoint-state-index-alias', 'C12.R1', CONNPY,
+        'Connection.savepoint',
+        '''                 self._storage.index.copy(),''',
+        '''                 self._storage.index,''')
+breaker('C12', 'rollback-capture-after-reset', 'C12.R2', CONNPY,
+        'Connection._rollback_savepoint',
+        '''        index = src.index
+        src.reset(*state)''', '''        src.reset(*state)
+        index = src.index''')
+breaker('C12', 'rollback-no-abort', 'C12.R2', CONNPY,
+        'Connection._rollback_savepoint',
+        '''        self._abort()
+''', '')
+breaker('C12', 'rollback-no-invalidate', 'C12.R2', CONNPY,
+        'Connection._rollback_savepoint',
+        '''        self._cache.invalidate(index)
+''', '')
+breaker('C12', 'tmpstore-writes-through', 'C12.R3', CONNPY, 'TmpStore.store',
+        '''        self.position += lenght + len(header)
+        return serial''', '''        self.position += lenght + len(header)
+        if lenght > (1 << 30):
+            self._storage.store(oid, serial, data, version, transaction)
+        return serial''')
+breaker('C12', 'tmpstore-alias-tpc', 'C12.R3', CONNPY, 'TmpStore.__init__',
+        "'getName', 'new_oid', 'sortKey',", "'getName', 'new_oid', 'sortKey', 'tpc_vote',")
+breaker('C12', 'commit-savepoint-no-close-on-error', 'C12.R4', CONNPY,
+        'Connection._commit_savepoint',
+        '''        finally:
+            src.close()''', '''        except BaseException:
+            raise
+        src.close()''')
+breaker('C12', 'savepoint-switch-after-commit', 'C12.R5', CONNPY,
+        'Connection.savepoint',
+        '''            self._storage = self._savepoint_storage
+
+        self._creating.clear()
+        self._commit(None)''', '''
+        self._creating.clear()
+        self._commit(None)
+        self._storage = self._savepoint_storage''')
+breaker('C12', 'savepoint-blob-name-oid-serial-only', 'C12.R6', CONNPY,
+        'TmpStore._getCleanFilename',
+        '''            "{}-{}-{}{}".format(utils.oid_repr(oid), utils.tid_repr(tid),
+                                self.index.get(oid, 0), SAVEPOINT_SUFFIX)''',
+        '''            "{}-{}{}".format(utils.oid_repr(oid), utils.tid_repr(tid),
+                             SAVEPOINT_SUFFIX)''')
+twin('C12', 'reset-dict-copy', CONNPY, 'TmpStore.reset',
+     'self.creating = creating.copy()', 'self.creating = dict(creating)')
+twin('C12', 'rollback-rename-src', CONNPY, 'Connection._rollback_savepoint',
+     '''        src = self._storage
+
+        # Invalidate objects created *after* the savepoint.
+        self._invalidate_creating(oid for oid in src.creating
+                                  if oid not in state[2])
+        index = src.index
+        src.reset(*state)
+        self._cache.invalidate(index)''',
+     '''        store = self._storage
+
+        # Invalidate objects created *after* the savepoint.
+        self._invalidate_creating(oid for oid in store.creating
+                                  if oid not in state[2])
+        written = store.index
+        store.reset(*state)
+        self._cache.invalidate(written)''')
